@@ -159,7 +159,9 @@ class SessionDriver:
             c, w2 = make_arg(torch, self.c1, ik)
             w1 = []
             f = m.sample if op == "sample" else m.sample_and_log_prob
-            fn = lambda: f(3, context=c) if c is not None else f(3)
+            # for the sampling operations the input kind also selects the number of draws per row
+            n = 1 if ik in ("view", "grad") else 3
+            fn = lambda: f(n, context=c) if c is not None else f(n)
         watch = w1 + w2
         s0 = snap(watch)
         sd0 = {k: v.detach().clone() for k, v in m.state_dict().items()}
